@@ -380,6 +380,72 @@ def run_case(spec):
                 lr = [parse_line(l) for l in open(a2.output_path) if not l.startswith('#')]
                 if lr:
                     bad('record-emitted-below-threshold', f'rows with ijc/sjc below {min_ijc}/{min_sjc} produced {len(lr)} records, e.g. {lr[0][2]} {lr[0][4]} on {lr[0][5]["TRANSCRIPT_ID"]}')
+        # ---- second run: the alternative form becomes ANNOTATED. An extra non-coding isoform carrying every junction of the
+        # event's alternative form - but with other outer ends (leading / trailing exons dropped, first exon start / last exon
+        # end moved) - is added to the gene; the same rMATS rows must then no longer produce the records of that event.
+        chosen = []
+        for ev in events:
+            if not ev['pass'] or not ev['novel_junctions'] or ev['form'] == 'retained':
+                continue
+            if any(c['gene'] is ev['gene'] for c in chosen):
+                continue
+            tx = ev['tx']
+            gs = ref.gene_seq(tx.gene)
+            want = seq_of(gs, ev['alt'])
+            mine = [(tx.id, r[2], r[4], r[1]) for r in by_tx.get(tx.id, []) if apply_record(gs, tx, r) == want]
+            if mine:
+                ev['run1_records'] = mine
+                chosen.append(ev)
+        if chosen and spec.get('annotate', True):
+            import copy
+            ref2 = copy.deepcopy(ref)
+            shapes = []
+            for ev in chosen:
+                alt = list(ev['alt'])
+                idx = [i for i in range(len(alt) - 1) if (alt[i][1], alt[i + 1][0]) in set(ev['novel_junctions'])]
+                i0, i1 = min(idx), max(idx) + 1
+                i0 = rng.randint(0, i0)
+                i1 = rng.randint(i1, len(alt) - 1)
+                sub = alt[i0:i1 + 1]
+                mode = rng.choice(['trim-first', 'trim-last', 'both', 'same'])
+                if mode in ('trim-first', 'both') and sub[0][1] - sub[0][0] > 6:
+                    sub[0] = (sub[0][0] + rng.randint(1, sub[0][1] - sub[0][0] - 4), sub[0][1])
+                if mode in ('trim-last', 'both') and sub[-1][1] - sub[-1][0] > 6:
+                    sub[-1] = (sub[-1][0], sub[-1][1] - rng.randint(1, sub[-1][1] - sub[-1][0] - 4))
+                g2 = ref2.gene_by_id(ev['gene'].id)
+                if any(t.exons == sub for t in g2.txs):
+                    continue
+                from harness.model.seqmodel import Tx
+                k = len(g2.txs) + 1
+                g2.txs.append(Tx(g2.txs[0].id[:-5] + f'{k + 50:03d}.1', g2, sub, False))
+                shapes.append((ev['typ'], ev['form'], mode, i0 > 0, i1 < len(alt) - 1))
+                ev['annotated_as'] = sub
+            wd2 = drivers.case_dir('c16b-')
+            try:
+                refgen.write_reference(ref2, wd2)
+                a3 = drivers.ref_namespace(wd2)
+                a3.command, a3.output_path, a3.source, a3.min_ijc, a3.min_sjc = 'parseRMATS', Path(wd2) / 'rmats.gvf', 'AltSplice', min_ijc, min_sjc
+                for kind, dest in (('SE', 'skipped_exon'), ('A5SS', 'alternative_5_splicing'), ('A3SS', 'alternative_3_splicing'),
+                                   ('MXE', 'mutually_exclusive_exons'), ('RI', 'retained_intron')):
+                    setattr(a3, dest, getattr(a, dest))
+                with drivers.quiet():
+                    parse_rmats(a3)
+                recs2 = {(r[5]['TRANSCRIPT_ID'], r[2], r[4], r[1]) for r in
+                         ([parse_line(l) for l in open(a3.output_path) if not l.startswith('#')] if a3.output_path.exists() else [])}
+                for ev in chosen:
+                    if 'annotated_as' not in ev:
+                        continue
+                    counters['annotated_form_events'] = counters.get('annotated_form_events', 0) + 1
+                    still = [x for x in ev['run1_records'] if x in recs2]
+                    if still:
+                        bad('record-for-annotated-form',
+                            f'{ev["typ"]} {ev["form"]} on {ev["tx"].id} (strand {ev["gene"].strand}, exons {ev["tx"].exons}): records {still[:2]} are still '
+                            f'emitted although an annotated isoform with exons {ev["annotated_as"]} carries every junction of the alternative form '
+                            f'{ev["alt"]}')
+            except Exception as ex:
+                bad('parser-crash-second-run', f'{type(ex).__name__}: {str(ex)[:200]}')
+            finally:
+                drivers.rm(wd2)
         # annotated alternative: an event whose two forms are BOTH annotated isoforms must emit nothing for them
         for gene in ref.genes:
             for ev in annotated_pairs.get(gene.id, []):
@@ -414,6 +480,6 @@ def check(rep, tier, seed, specs=None, n_override=None):
                 'the sequence of the alternative exon list; a passing event must emit it, a failing one must not. non-trivial = >= 1 record emitted; '
                 'distinct = set of (event type, direction, strand).')
     rep.absorb(results, lost)
-    for k in ('records', 'events', 'applied', 'events_passing', 'constrained_records', 'alternatives_emitted', 'events_below_threshold'):
+    for k in ('records', 'events', 'applied', 'events_passing', 'constrained_records', 'alternatives_emitted', 'events_below_threshold', 'annotated_form_events'):
         if not rep.counters.get(k):
             rep.inconclusive.append(f'monitor {k} had zero evaluations')
